@@ -457,7 +457,7 @@ fn gen_prog(t: &mut Tape) -> Case {
             let fault = t.pick(super::c13::FAULTS.len());
             let position = if t.chance(1, 10) { usize::MAX } else { t.pick(64) };
             let prog = SynGen::new(t, SynCfg::default()).program();
-            let c = super::c13::Case { prog, spelling: spelling.clone(), position, fault };
+            let c = super::c13::Case { prog, spelling: spelling.clone(), position, fault, tail: 0 };
             match super::c13::inject(&c) {
                 Some((src, _, _, _)) => (src, vec![], "syntax_fault"),
                 None => (render(&c.prog, &spelling, OPTS).text, vec![], "grammar"),
